@@ -37,6 +37,22 @@ process (current_process().name == "MainProcess", parent_process() is None).  ch
 multiprocessing (a supervisor doing Process(target=run_worker)): parent_process() is a process object,
 current_process() has that name and a _parent_pid.  The statements do not depend on who started the manager.
 
+Optional "cfg": the configuration the manager is built from (absent = WorkerArgs(workers, max_fails) built directly,
+reload off, no observer - what every case was before):
+  reload, no_gitignore : WorkerArgs.reload (--reload) / WorkerArgs.no_gitignore (--do-not-use-gitignore)
+  extras    : the optional `reload` extra (watchdog + gitignore-parser) is importable: the module's FileWatcher /
+              Observer names hold the real taskiq.cli.watcher.FileWatcher / an observer class; false = they are None
+              (the ImportError branch of the module's try-import - the state of this verification environment)
+  observer  : "none" | "rec" - the `observer` argument: None, or a recording stand-in for watchdog's Observer (only
+              schedule() does anything; no thread, no inotify).  "rec" with reload needs extras (as the CLI guarantees)
+  gitignore : a ./.gitignore exists in the manager's working directory (a private scratch directory of the driver)
+  args      : further WorkerArgs fields (the manager hands them to its workers, never looks at them)
+  via       : "direct" | "cli" - WorkerArgs(...) or the real WorkerArgs.from_cli(argv)
+When the manager scheduled a handler on the recording observer, a ["file"] event is a file-system event of a source
+file dispatched to that handler (the real FileWatcher.dispatch -> callback path, on the watchdog thread); otherwise
+it is, as before, a direct call of schedule_workers_reload(action_queue).  The statements do not depend on cfg.
+Every SIGINT / SIGTERM handed to the manager's handler is logged with the tick it fell in (`signals`).
+
 Fakes: Process (new/live/zombie/reaped; is_alive()/join()/exitcode reap, as multiprocessing does), Event, a
 synchronous FIFO Queue WITH multiprocessing.Queue's bound (maxsize <= 0 = unbounded; a blocking put() on a full
 queue made by the manager's own thread - the drain loop, the scan, a signal handler - can never return because
@@ -53,8 +69,80 @@ import sys
 import time as real_time
 import types
 
-import taskiq.cli.worker.process_manager as pm
-from taskiq.cli.worker.args import WorkerArgs
+import atexit
+import fnmatch
+import importlib
+import shutil
+import tempfile
+
+
+def _missing(modname):
+    try:
+        importlib.import_module(modname)
+        return False
+    except ImportError:
+        return True
+
+
+def _stand_in_reload_extras():
+    """The optional `reload` extra of taskiq (watchdog, gitignore-parser) is not installed here, so process_manager's
+    try-import would always take the ImportError branch and taskiq.cli.watcher could never run.  Minimal stand-ins
+    for the two third-party packages (only what taskiq.cli.watcher / process_manager import from them) are put into
+    sys.modules of THIS driver process before the module under test is imported; whether a case sees the extra as
+    installed is then decided per case (cfg.extras).  A package that is really installed is left alone."""
+    made = []
+    if _missing("watchdog.events") or _missing("watchdog.observers"):
+        wd, ev, ob = (types.ModuleType(n) for n in ("watchdog", "watchdog.events", "watchdog.observers"))
+        wd.__path__ = []
+
+        class FileSystemEvent:
+            event_type, is_directory, is_synthetic = "", False, False
+
+            def __init__(self, src_path, dest_path="", is_synthetic=False):
+                self.src_path, self.dest_path, self.is_synthetic = src_path, dest_path, is_synthetic
+
+            def __repr__(self):
+                return "<%s %s>" % (type(self).__name__, self.src_path)
+
+        for cls, kind in (("FileModifiedEvent", "modified"), ("FileCreatedEvent", "created"),
+                          ("FileDeletedEvent", "deleted"), ("FileMovedEvent", "moved")):
+            setattr(ev, cls, type(cls, (FileSystemEvent,), dict(event_type=kind)))
+        ev.FileSystemEvent = FileSystemEvent
+
+        class Observer:                 # never instantiated by the driver: the `observer` argument is RecObserver
+            def __init__(self, *a, **kw):
+                raise OutsideModel("watchdog.observers.Observer()")
+
+        Observer.__module__ = "watchdog.observers"
+        ob.Observer = Observer
+        wd.events, wd.observers = ev, ob
+        sys.modules.update({"watchdog": wd, "watchdog.events": ev, "watchdog.observers": ob})
+        made.append("watchdog")
+    if _missing("gitignore_parser"):
+        gp = types.ModuleType("gitignore_parser")
+
+        def parse_gitignore(full_path, base_dir=None):
+            pats = [ln.strip().rstrip("/") for ln in open(full_path) if ln.strip() and not ln.startswith("#")]
+
+            def matches(path):
+                parts = [x for x in str(path).replace("\\", "/").split("/") if x not in ("", ".")]
+                return any(fnmatch.fnmatch(x, q) for x in parts for q in pats)
+            return matches
+
+        gp.parse_gitignore = parse_gitignore
+        sys.modules["gitignore_parser"] = gp
+        made.append("gitignore_parser")
+    return made
+
+
+class OutsideModel(BaseException):
+    """the code under test used a multiprocessing facility the fakes do not provide"""
+
+
+STAND_INS = _stand_in_reload_extras()
+
+import taskiq.cli.worker.process_manager as pm  # noqa: E402
+from taskiq.cli.worker.args import WorkerArgs  # noqa: E402
 
 MANAGER_PID = 4000
 
@@ -73,10 +161,6 @@ class PutBlocks(BaseException):
 
 class GetBlocks(BaseException):
     """a blocking get() on an empty queue by the manager's thread with nothing left in the script to fill it"""
-
-
-class OutsideModel(BaseException):
-    """the code under test used a multiprocessing facility the fakes do not provide"""
 
 
 class World:
@@ -312,18 +396,61 @@ def deliver(evs, early_point=None):
                     W.polled["by-startup-wait"] += 1
         elif ev[0] == "hup":
             W.handlers[S.SIGHUP](S.SIGHUP, None)
-        elif ev[0] == "int":
-            W.handlers[S.SIGINT](S.SIGINT, None)
-        elif ev[0] == "term":
-            W.handlers[S.SIGTERM](S.SIGTERM, None)
+        elif ev[0] in ("int", "term"):
+            W.signals.append(dict(sig=ev[0], tick=W.tick, point=early_point or "tick"))
+            num = S.SIGINT if ev[0] == "int" else S.SIGTERM
+            W.handlers[num](num, None)
         elif ev[0] == "file":
             W.in_watcher = True             # the watchdog observer's thread, not the manager's
             try:
-                pm.schedule_workers_reload(W.mgr.action_queue)
+                watches = W.observer.scheduled if W.observer is not None else []
+                if watches:                 # the real FileWatcher.dispatch -> callback(**callback_kwargs) path
+                    for handler, _path, _rec in watches:
+                        handler.dispatch(fs_event())
+                    W.file_via["watcher"] += 1
+                else:
+                    pm.schedule_workers_reload(W.mgr.action_queue)
+                    W.file_via["direct"] += 1
             finally:
                 W.in_watcher = False
         else:
             raise ValueError(ev)
+
+
+FS_EVENTS = [("FileModifiedEvent", "./app/tasks.py"), ("FileCreatedEvent", "app/broker.py"),
+             ("FileModifiedEvent", "pkg/sub/module.py"), ("FileDeletedEvent", "./old_tasks.py"),
+             ("FileMovedEvent", "app/tasks.py")]
+
+
+def fs_event():
+    """a change of a source file (never a directory, never under .git, never matched by the scratch .gitignore)"""
+    import watchdog.events as we
+    cls, path = FS_EVENTS[W.file_n % len(FS_EVENTS)]
+    W.file_n += 1
+    return getattr(we, cls)(path, "app/tasks_renamed.py") if cls == "FileMovedEvent" else getattr(we, cls)(path)
+
+
+class RecObserver:
+    """stands for watchdog.observers.Observer as the CLI hands it to the manager: records schedule() calls"""
+
+    def __init__(self):
+        self.scheduled = []
+
+    def schedule(self, event_handler, path, recursive=False, **kw):
+        self.scheduled.append((event_handler, path, recursive))
+        return ("watch", len(self.scheduled))
+
+    def start(self):
+        pass
+
+    def stop(self):
+        pass
+
+    def join(self, timeout=None):
+        pass
+
+    def is_alive(self):
+        return True
 
 
 def snapshot():
@@ -466,6 +593,16 @@ def setup(opts):
                 else:       # e.g. EventType (annotations only), get_context, Pipe, a context object
                     W.unmodelled.append(name)
                     setattr(pm, name, Stub(name))
+    # the optional `reload` extra as the module saw it at import: names holding the FileWatcher / Observer classes
+    W.extras_names = [(name, v) for name, v in vars(pm).items()
+                      if isinstance(v, type) and (_mp_origin(v) == "taskiq.cli.watcher" or _mp_origin(v).startswith("watchdog"))]
+    for k in ("FileWatcher", "Observer"):
+        if not any(name == k for name, _ in W.extras_names):
+            W.extras_names.append((k, getattr(pm, k, None)))
+    # a private working directory (FileWatcher looks for ./.gitignore)
+    W.cwd = tempfile.mkdtemp(prefix="pmcwd_", dir=real_os.getcwd())
+    real_os.chdir(W.cwd)
+    atexit.register(shutil.rmtree, W.cwd, True)
     # the names the unchanged module uses, unconditionally (as before)
     pm.Process = FProc
     pm.Event = FEvent
@@ -479,6 +616,35 @@ def setup(opts):
         for k in ("current_process", "parent_process", "active_children"):
             if hasattr(m, k):
                 setattr(m, k, MP_FAKES[k])
+
+
+CLI_OPTS = dict(shutdown_timeout="--shutdown-timeout", max_async_tasks="--max-async-tasks", max_prefetch="--max-prefetch",
+                hardkill_count="--hardkill-count", max_tasks_per_child="--max-tasks-per-child",
+                wait_tasks_timeout="--wait-tasks-timeout", max_threadpool_threads="--max-threadpool-threads",
+                log_level="--log-level")
+CLI_FLAGS = dict(use_process_pool="--use-process-pool", no_parse="--no-parse", fs_discover="--fs-discover",
+                 no_propagate_errors="--no-propagate-errors")
+
+
+def build_args(c, cfg):
+    extra = dict(cfg.get("args") or {})
+    if cfg.get("via") == "cli":
+        argv = ["x:y", "--workers", str(c["n"]), "--max-fails=%d" % c["mf"]]
+        argv += ["--reload"] if cfg.get("reload") else []
+        argv += ["--do-not-use-gitignore"] if cfg.get("no_gitignore") else []
+        for k, v in extra.items():
+            if k in CLI_FLAGS:
+                argv += [CLI_FLAGS[k]] if v else []
+            elif k == "configure_logging":
+                argv += [] if v else ["--no-configure-logging"]
+            else:
+                argv += ["%s=%s" % (CLI_OPTS[k], v)]
+        return WorkerArgs.from_cli(argv)
+    if "log_level" in extra:
+        from taskiq.cli.common_args import LogLevel
+        extra["log_level"] = LogLevel[extra["log_level"]]
+    return WorkerArgs(broker="x:y", modules=[], workers=c["n"], max_fails=c["mf"], reload=bool(cfg.get("reload")),
+                      no_gitignore=bool(cfg.get("no_gitignore")), **extra)
 
 
 def run_case(c, opts):
@@ -500,8 +666,23 @@ def run_case(c, opts):
     child = bool(env.get("child"))
     W.parent = FSelf("MainProcess", MANAGER_PARENT_PID, None) if child else None
     W.me = FSelf(env.get("name") or "MainProcess", MANAGER_PID, MANAGER_PARENT_PID if child else None)
-    W.mgr = pm.ProcessManager(WorkerArgs(broker="x:y", modules=[], workers=c["n"], max_fails=c["mf"]),
-                              worker_function=lambda args: None)
+    W.signals, W.file_via, W.file_n = [], dict(watcher=0, direct=0), 0
+    cfg = c.get("cfg") or {}
+    for name, v in W.extras_names:
+        setattr(pm, name, v if cfg.get("extras") else None)
+    gi = real_os.path.join(W.cwd, ".gitignore")
+    if cfg.get("gitignore"):
+        open(gi, "w").write("# scratch\n*.pyc\n__pycache__/\nbuild/\n.venv\n")
+    elif real_os.path.exists(gi):
+        real_os.remove(gi)
+    W.observer = RecObserver() if cfg.get("observer") == "rec" else None
+    args = build_args(c, cfg)
+    if W.observer is not None:
+        W.mgr = pm.ProcessManager(args, worker_function=lambda args: None, observer=W.observer)
+    elif cfg.get("observer") == "none":
+        W.mgr = pm.ProcessManager(args=args, worker_function=lambda args: None, observer=None)
+    else:
+        W.mgr = pm.ProcessManager(args, worker_function=lambda args: None)
     try:
         rv = W.mgr.start()
         if rv is None:
@@ -534,4 +715,8 @@ def run_case(c, opts):
                 bounds=W.bounds, puts=W.puts, kills=W.kills, start_info=W.start_info,
                 handlers=sorted(int(k) for k in W.handlers),
                 early=W.early_n, deaths=W.deaths, polled=W.polled,
+                signals=W.signals, file_via=W.file_via,
+                watches=[[type(h).__name__, path, bool(rec)] for h, path, rec in W.observer.scheduled] if W.observer else None,
+                args=dict(workers=args.workers, max_fails=args.max_fails, reload=bool(args.reload),
+                          no_gitignore=bool(args.no_gitignore)),
                 exitcodes=[[p.pid, p.code] for p in W.all if p.code is not None])
